@@ -165,7 +165,7 @@ func c01Run(cfgS, evS string) string {
 			order = append(order, key)
 		case "L":
 			key := f[1] + f[2]
-			if sub, ok := subs[key]; ok && sub.conn != nil {
+			if sub, ok := subs[key]; ok && (sub.rs != nil || sub.fs != nil) {
 				sub.drain()
 				if sub.rs != nil {
 					g.DelRtmpSubSession(sub.rs)
@@ -203,6 +203,8 @@ func init() {
 	// grp.run <cfg> <events>  =>  bytes every consumer received, and the recordings
 	ops["grp.run"] = func(a []string) string { return c01Run(a[0], a[1]) }
 	gens["C01"] = genC01
+	gens["C02"] = genC02
+	gens["C16"] = genC16
 }
 
 // ---------------------------------------------------------------------------------------------------------------------
@@ -377,5 +379,119 @@ func genC01(g *G) {
 	for i := 0; i < g.scale(400, 20000); i++ {
 		cfg, evs := genC01Scenario(r)
 		g.L("random").run(fmt.Sprintf("grp.run %s %s", cfg, evs))
+	}
+}
+
+// ---------------------------------------------------------------------------------------------------------------------
+// C02: join instants relative to headers / key frames, header changes mid-stream, audio codecs, GOP caches on.
+
+func c02Stream(r *Rng, g *c01Gen, shape int, changes bool) {
+	vsh := func() { g.msg(9, g.payload([]byte{0x17, 0, 0, 0, 0}, 10+r.Intn(12))) }
+	ash := func() { g.msg(8, g.payload([]byte{0xaf, 0}, 4)) }
+	audio := func() {
+		switch shape {
+		case 4:
+			g.msg(8, g.payload([]byte{0x7f}, 3+r.Intn(20))) // G.711A
+		case 5:
+			g.msg(8, g.payload([]byte{0xdf}, 3+r.Intn(20))) // Opus
+		default:
+			g.msg(8, g.payload([]byte{0xaf, 1}, 3+r.Intn(30)))
+		}
+	}
+	if r.Intn(3) != 0 {
+		g.msg(18, c01Metadata(r, r.Bool()))
+	}
+	if shape != 1 {
+		vsh()
+	}
+	if shape != 2 && shape < 4 {
+		ash()
+	}
+	for gop := 0; gop < 1+r.Intn(4); gop++ {
+		if shape != 1 {
+			g.msg(9, g.payload([]byte{0x17, 1, 0, 0, 0}, g.size()))
+		}
+		for k := 0; k < r.Intn(6); k++ {
+			if shape != 1 && r.Intn(3) != 0 {
+				g.msg(9, g.payload([]byte{0x27, 1, 0, 0, 0}, g.size()))
+			} else if shape != 2 {
+				audio()
+			}
+			if changes && r.Intn(9) == 0 {
+				switch r.Intn(3) {
+				case 0:
+					if shape != 1 {
+						vsh()
+					}
+				case 1:
+					if shape != 2 && shape < 4 {
+						ash()
+					}
+				default:
+					g.msg(18, c01Metadata(r, r.Bool()))
+				}
+			}
+		}
+	}
+}
+
+func genC02(g *G) {
+	r := g.rng
+	for i := 0; i < g.scale(400, 15000); i++ {
+		gen := &c01Gen{r: r}
+		shape := r.Pick(0, 0, 1, 2, 3, 4, 5)
+		cfg := fmt.Sprintf("rc=1,fc=1,rg=%d,rk=%d,fg=%d,fk=%d,ms=%d,rec=0", r.Pick(0, 1, 2, 3), r.Pick(0, 0, 1, 2, 5), r.Pick(0, 1, 2), r.Pick(0, 0, 1, 3), r.Pick(0, 0, 300))
+		gen.evs = append(gen.evs, "P")
+		c02Stream(r, gen, shape, true)
+		// insert 1..4 joins at random positions (including before P and between the headers)
+		n := 1 + r.Intn(4)
+		for j := 0; j < n; j++ {
+			pos := r.Intn(len(gen.evs) + 1)
+			if r.Intn(3) == 0 {
+				pos = r.Intn(5)
+				if pos > len(gen.evs) {
+					pos = len(gen.evs)
+				}
+			}
+			ev := fmt.Sprintf("J:%c:%d", r.Pick('r', 'f', 'w'), 100+j)
+			gen.evs = append(gen.evs[:pos], append([]string{ev}, gen.evs[pos:]...)...)
+		}
+		g.L(fmt.Sprintf("shape=%d", shape)).run(fmt.Sprintf("grp.run %s %s", cfg, strings.Join(gen.evs, ";")))
+	}
+}
+
+// C16: repeated publish / unpublish with changing codecs while subscribers stay attached or join in between.
+func genC16(g *G) {
+	r := g.rng
+	for i := 0; i < g.scale(300, 12000); i++ {
+		gen := &c01Gen{r: r}
+		cfg := fmt.Sprintf("rc=1,fc=1,rg=%d,rk=%d,fg=%d,fk=%d,ms=%d,rec=%d", r.Pick(0, 1, 2), r.Pick(0, 0, 2), r.Pick(0, 1, 2), r.Pick(0, 0, 2), r.Pick(0, 0, 200, 8192), r.Pick(0, 1))
+		id := 1
+		join := func() {
+			gen.evs = append(gen.evs, fmt.Sprintf("J:%c:%d", r.Pick('r', 'f', 'w'), id))
+			id++
+		}
+		cycles := 2 + r.Intn(3)
+		for c := 0; c < cycles; c++ {
+			if r.Bool() {
+				join()
+			}
+			gen.evs = append(gen.evs, "P")
+			if r.Intn(4) == 0 {
+				join()
+			}
+			c02Stream(r, gen, r.Pick(0, 1, 2, 3, 4), r.Intn(3) == 0)
+			if r.Intn(3) == 0 {
+				join()
+			}
+			gen.evs = append(gen.evs, "p")
+			if r.Intn(3) == 0 && id > 1 {
+				k := 1 + r.Intn(id-1)
+				for _, kk := range []byte{'r', 'f', 'w'} {
+					gen.evs = append(gen.evs, fmt.Sprintf("L:%c:%d", kk, k)) // only the matching kind is attached
+				}
+			}
+		}
+		g.L(fmt.Sprintf("cycles=%d", cycles)).run(fmt.Sprintf("grp.run %s %s", cfg, strings.Join(gen.evs, ";")))
 	}
 }
